@@ -162,7 +162,7 @@ def _shard(arg):
         nt = (branch != "linear_counting" and bool(reg.any())) or case["kind"].endswith("boundary")
         rec.case(case, nt, [f"branch={branch}", f"kind={case['kind']}", f"p={case['p']}"] + stats)
 
-    common.run_given(test, common.derive_seed(seed, "C17", shard), n_examples, holder, rec)
+    common.run_given(test, common.derive_seed(seed, "C17", shard), n_examples, holder, rec, retry=check_case)
     return rec
 
 
